@@ -93,6 +93,7 @@ class C05(Check):
     def setup(self, tier):
         core.import_lark()
         prio.install_salted_hashing()
+        self.open_sigs = {o['sig'] for o in core.load_known()[0] if o['property'] == self.ID}
 
     # ------------------------------------------------------------------ plan
     def _gen_opt_case(self, rng):
@@ -121,6 +122,12 @@ class C05(Check):
         return {'kind': 'emp', 'g': g, 'inputs': inputs, 'lexer': rng.choice(['basic', 'dynamic', 'dynamic_complete']),
                 'priority': rng.choice(['normal', 'normal', 'invert', None]), 'ordered_sets': rng.random() < 0.8}
 
+    def _gen_cyc_case(self, rng):
+        mode = rng.choice(['normal', 'normal', 'invert', None])
+        g = prio.gen_grammar_cyc(rng, mode)
+        return {'kind': 'cyc', 'g': g, 'inputs': ['a', 'b', 'ab', 'ac', 'aa', 'ba'], 'lexer': rng.choice(['basic', 'dynamic', 'dynamic_complete']),
+                'priority': mode, 'ordered_sets': rng.random() < 0.8}
+
     def _gen_det_case(self, rng):
         if rng.random() < 0.5:
             text, inputs = rng.choice(DET_GRAMMARS)
@@ -138,12 +145,12 @@ class C05(Check):
             nodes_ = [{'hashseed': rng.randrange(1, 1 << 31), 'salt': rng.randrange(1 << 30), 'noise_seed': rng.randrange(1, 1 << 20),
                        'order': rng.sample(range(10), 10), 'salted': rng.random() < 0.7} for _ in range(3)]
             return {'mode': 'nodes', 'cases': cases, 'nodes': nodes_, 'orders': orders[:2]}
-        case = self._gen_opt_case(rng) if r < 0.6 else (self._gen_emp_case(rng) if r < 0.75 else self._gen_det_case(rng))
+        case = self._gen_opt_case(rng) if r < 0.55 else (self._gen_emp_case(rng) if r < 0.7 else (self._gen_cyc_case(rng) if r < 0.78 else self._gen_det_case(rng)))
         return {'mode': 'salts', 'cases': [case], 'orders': orders}
 
     # ------------------------------------------------------------------ execution
     def _lark_case(self, c, strip=False):
-        if c['kind'] in ('opt', 'emp'):
+        if c['kind'] in ('opt', 'emp', 'cyc'):
             text = prio.grammar_text(c['g'], with_priorities=not strip)
             opts = {'lexer': c['lexer'], 'keep_all_tokens': True, 'priority': c['priority'], 'ordered_sets': c['ordered_sets']}
         else:
@@ -239,6 +246,13 @@ class C05(Check):
                     nontrivial = True
                     out.count('inputs-on-grammars-with-competing-empty-alternatives')
                 continue
+            if c['kind'] == 'cyc':
+                v = self._judge_cyclic(c, lc, s, flat, labels, out)
+                if v == 'nontrivial':
+                    nontrivial = True
+                elif v is not None:
+                    return v, nontrivial
+                continue
             # ---- reference model: all derivations with priority sums
             try:
                 only = prio.basic_lexer_choice(c['g'], c['priority']) if c['lexer'] == 'basic' else None
@@ -278,6 +292,40 @@ class C05(Check):
                         return Violation('priority-none-differs', input=s, got=r, priority_free_grammar_gives=stripped, grammar=lc['text'], options=lc['options']), nontrivial
         return None, nontrivial
 
+    KNOWN_CYCLIC = 'suboptimal:cyclic-unit-rules'
+
+    def _judge_cyclic(self, c, lc, s, flat, labels, out):
+        """grammars with cycles of unit rules: infinitely many derivations, but every cycle weighs <= 0 (>= 0 under invert), so the
+        optimum over ALL derivations is the optimum over the cycle-free ones, which are enumerated; the returned tree only has to be
+        a derivation (it may go round a cycle)"""
+        if flat[0][0] != 'ok':
+            return None
+        try:
+            D = prio.enumerate_cycle_free(c['g'], s)
+        except prio.Overflow:
+            out.count('enumeration-overflow')
+            return None
+        ps = [prio.derivation_priority(d, c['g'], False) for d in D]
+        res = 'nontrivial' if len(set(ps)) > 1 else None
+        if len(set(ps)) > 1:
+            out.count('inputs-with-competing-priority-sums(cyclic grammar)')
+        for oi, r in enumerate(flat):
+            d = prio.from_json(r[1])
+            if prio.derivation_yield(d, c['g']) != s:
+                return Violation('unsound-tree', input=s, order=labels[oi], got=r[1], n_derivations=len(D), grammar=lc['text'], options=lc['options'])
+            mode = c['priority']
+            if mode in ('normal', 'invert'):
+                best = max(ps) if mode == 'normal' else min(ps)
+                got = prio.derivation_priority(d, c['g'], False)
+                if got != best:
+                    if self.KNOWN_CYCLIC in self.open_sigs:
+                        # the open finding (KNOWN_FINDINGS.txt): tallied, the run goes on - every other kind of violation on these grammars is still reported
+                        out.count('known-finding:' + self.KNOWN_CYCLIC)
+                        return res
+                    return Violation('suboptimal(%s)' % mode, input=s, order=labels[oi], got_priority=got, best=best, got=r[1], n_derivations=len(D),
+                                     cyclic=True, grammar=lc['text'], options=lc['options'])
+        return res
+
     # ------------------------------------------------------------------ minimisation
     def shrink(self, plan, decisions, violation, fails):
         ci = violation['detail'].get('case', 0)
@@ -301,6 +349,8 @@ class C05(Check):
 
     def signature(self, plan, violation):
         c = plan['cases'][violation['detail'].get('case', 0) if len(plan['cases']) > 1 else 0]
+        if c['kind'] == 'cyc' and violation['kind'].startswith('suboptimal'):
+            return self.KNOWN_CYCLIC
         return '%s:%s:%s' % (violation['kind'], c['kind'], c['lexer'])
 
     def fixed_plans(self, tier):
@@ -308,7 +358,11 @@ class C05(Check):
         g = {'nts': ['start', 'n1', 'n2'], 'rules': {'start': [['n1'], ['n2']], 'n1': [['A'], ['A', 'B']], 'n2': [['A'], ['A', 'B']]},
              'rprio': {'start': None, 'n1': 2, 'n2': 1}, 'tprio': {'A': 0, 'B': 0, 'C': 0}, 'terms': {'A': 'a', 'B': 'b', 'C': 'c'}}
         case = {'kind': 'opt', 'g': g, 'inputs': ['ab', 'a'], 'lexer': 'basic', 'priority': 'invert', 'ordered_sets': True}
-        return [('invert-even-alternatives', {'mode': 'salts', 'cases': [case], 'orders': [[1, 0], [2, 5]]})]
+        out = [('invert-even-alternatives', {'mode': 'salts', 'cases': [case], 'orders': [[1, 0], [2, 5]]})]
+        import json, glob, os
+        for path in sorted(glob.glob(os.path.join(core.VERIF, 'replays', 'fixed', 'C05-*.json')) + glob.glob(os.path.join(core.VERIF, 'replays', 'known', 'C05-*.json'))):
+            out.append((os.path.basename(path)[:-5], json.load(open(path))['plan']))
+        return out
 
 
 CHECK = C05()
